@@ -4188,6 +4188,12 @@ def _check_dependents_are_predicates(
         if not allow_reduction:
             if isinstance(e, (ApplyConcatApply, TreeReduce, ShuffleReduce)):
                 return False
+            if not isinstance(e, Elemwise):
+                # The predicate is going to be re-evaluated on the unfiltered
+                # frame: that is only valid for row-wise (elementwise) steps.
+                # cumsum / shift / diff / rolling / map_partitions ... see the
+                # neighbouring rows and give other values on the unfiltered frame.
+                return False
 
         allowed_expressions.add(e._name)
         stack.extend(e.dependencies())
